@@ -218,6 +218,17 @@ func (x *Ex) genFuncsMore(body *LeanFile) {
 		{"internal/markup", "Parser", "OptOut"},
 		{"internal/markup", "Parser", "MarkupInfo"},
 	})
+	// the image extractor: what Model/ImageExtract.lean models
+	x.bodyGroup(body, "imageExtractBodies", []string{"C02", "C04", "C09"}, [][3]string{
+		{"internal/extractor/embed", "ImageExtractor", "Extract"},
+		{"internal/extractor/embed", "ImageExtractor", "findRealFigureImage"},
+		{"internal/extractor/embed", "ImageExtractor", "findVisibleFigCaption"},
+		{"internal/extractor/embed", "ImageExtractor", "processPicture"},
+		{"internal/extractor/embed", "ImageExtractor", "replaceLazyAttr"},
+		{"internal/extractor/embed", "ImageExtractor", "replaceLazySrcAttr"},
+		{"internal/extractor/embed", "ImageExtractor", "replaceLazySrcsetAttr"},
+		{"internal/extractor/embed", "ImageExtractor", "createFigCaption"},
+	})
 	// the prefix test whose success licenses `linkHref[lenPrefix:]` in PrevNextFinder.FindOutlink
 	x.bodyStmts(body, "internal/stringutil", "", "HasPrefixIgnoreCase", "hasPrefixIgnoreCaseBody", "C01", "C16")
 }
